@@ -25,6 +25,7 @@ def run(ctx):
     ctx.shared(_c10.typecase, ctx, ['xtuml.meta'], 'C10-TYPECASE')
     from . import c12 as _c12
     ctx.shared(_c12.atomic, ctx)       # what a rejected input leaves in the loader shows up in every later build
+    ctx.guard(clone_rule, ctx)
     ctx.assume('user code that mutates Association.source_keys / target_keys in place is outside the listed changes')
     return ('Escape classification of every statement-field argument in the populate_* passes (copied vs stored by reference, '
             'one call level deep), repository-wide scan for in-place mutators of reference-stored fields, freshness of every '
@@ -82,6 +83,22 @@ def reiterable(ctx):
     probe = ast.parse('self.attributes = filter(None, attributes)').body[0]
     r.check(_one_shot(probe.value) is not None, 'detector self-test: filter(...) is recognised as one-shot', probe, construct='C18-REITER:probe', key='probe',
             msg='the one-shot detector no longer recognises its positive example')
+
+
+def clone_rule(ctx):
+    '''cloning an instance of another build creates the copy in THIS metamodel: the class is looked up here, by its (case-insensitive) kind'''
+    repo = ctx.repo
+    r = ctx.rule('C18-CLONE', 'MetaModel.clone creates the copy in the receiving metamodel', floor=1, oracle='an operation on one metamodel never changes another')
+    from .common import resolve_locals
+    mc = repo.nfunc('xtuml.meta:MetaModel.clone')
+    P = param_names(mc)[0]
+    rets = [resolve_locals(mc, n.value, pure_only=False) for n in ast.walk(mc) if isinstance(n, ast.Return) and n.value is not None]
+    ok = len(rets) == 1 and (pm.match('self.find_metaclass(get_metaclass(%s).kind).clone(%s)' % (P, P), rets[0]) is not None or
+                             pm.match('self.find_metaclass(xtuml.get_metaclass(%s).kind).clone(%s)' % (P, P), rets[0]) is not None)
+    r.check(ok, 'the class is resolved with self.find_metaclass(kind of the source)', mc, construct='xtuml.meta:MetaModel.clone', key='mm-clone',
+            msg='MetaModel.clone returns `%s`; it must clone into self.find_metaclass(get_metaclass(%s).kind): any other lookup (a raw dictionary '
+                'access misses mixed-case kinds) falls back to the class of the OTHER metamodel and the copy is created there' % (
+                    src(rets[0])[:90] if rets else None, P))
 
 
 def _mutable_stmt_fields(repo):
